@@ -45,7 +45,7 @@ def display_matrix(ck):
     try:
         n = 400 if ck.tier == "quick" else 5000
         reqs, meta = [], []
-        states = ["normal", "normal", "normal", "nonascii", "crlf", "empty", "truncated", "edited", "missing", "directory", "notutf8"]
+        states = ["normal", "normal", "normal", "nonascii", "crlf", "empty", "truncated", "edited", "missing", "directory", "notutf8", "bom", "bom-short-nonascii-tail"]
         for k in range(n):
             st = states[k % len(states)]
             s = gen.rand_text(ck.rng, max_lines=6, unicode_p=0.6 if st == "nonascii" else 0.3, crlf_p=1.0 if st == "crlf" else 0.1)
@@ -58,6 +58,11 @@ def display_matrix(ck):
                 on_disk = s[: len(s) // 2]
             elif st == "edited":
                 on_disk = "// é inserted later\n" + s[::-1]
+            elif st == "bom":
+                on_disk = "\ufeff" + s
+            elif st == "bom-short-nonascii-tail":
+                # a file with a byte-order mark that is shorter than at compile time and ends in multi-byte characters
+                on_disk = "\ufeff" + s[: len(s) // 3] + ck.rng.choice(["🎉\n", "日\n", "éé", "x日本"])
             if st == "missing":
                 on_disk = None
             elif st == "directory":
